@@ -230,10 +230,10 @@ SlotNames(c) == {"b" \o ToString(i) : i \in 0..(ChanCap[c] - 1)}
          LET cand == {x \in m.chsent : x[1] = e.o /\ x[2] = e.v} IN
          IF cand = {} THEN MonBad(m, "a message was received that had not been sent")
          ELSE IF <<e.o, e.v>> \in m.chrecv THEN MonBad(m, "a message was received twice")
-         ELSE LET sx == CHOOSE x \in cand : TRUE IN
-              IF \E y \in m.chorder : y[1] = e.f /\ y[2] = sx[3] /\ y[3] = e.o /\ y[4] > sx[4]
+         ELSE LET csnd == CHOOSE x \in cand : TRUE IN
+              IF \E y \in m.chorder : y[1] = e.f /\ y[2] = csnd[3] /\ y[3] = e.o /\ y[4] > csnd[4]
               THEN MonBad(m, "messages of one sender were received out of order")
-              ELSE [m EXCEPT !.chrecv = @ \cup {<<e.o, e.v>>}, !.chorder = @ \cup {<<e.f, sx[3], e.o, sx[4]>>}]
+              ELSE [m EXCEPT !.chrecv = @ \cup {<<e.o, e.v>>}, !.chorder = @ \cup {<<e.f, csnd[3], e.o, csnd[4]>>}]
 #! POST
 \* ---- channels (C11)
 ChanOK == chBad = {}
